@@ -152,18 +152,25 @@ impl TraitHandlerMultiple for IntoEnumHandler {
                     let mut pattern_token_stream = proc_macro2::TokenStream::new();
                     let mut body_token_stream = proc_macro2::TokenStream::new();
 
+                    // bind a named field to another name, the field may be named like a constant or a variant in scope (e.g. `None`)
+                    let field_name_var = if is_tuple {
+                        field_name.clone()
+                    } else {
+                        format_ident!("_{}", field_name)
+                    };
+
                     if let Some(method) = method {
-                        body_token_stream.extend(quote!( #method(#field_name) ));
+                        body_token_stream.extend(quote!( #method(#field_name_var) ));
                     } else {
                         let field_ty = super::common::to_hash_type(ty);
 
                         if target_ty.eq(&field_ty) {
-                            body_token_stream.extend(quote!( #field_name ));
+                            body_token_stream.extend(quote!( #field_name_var ));
                         } else {
                             into_types.push(ty);
 
                             body_token_stream
-                                .extend(quote!( ::core::convert::Into::into(#field_name) ));
+                                .extend(quote!( ::core::convert::Into::into(#field_name_var) ));
                         }
                     }
 
@@ -178,7 +185,7 @@ impl TraitHandlerMultiple for IntoEnumHandler {
                             quote!( Self::#variant_ident ( #pattern_token_stream ) => #body_token_stream, ),
                         );
                     } else {
-                        pattern_token_stream.extend(quote!( #field_name, .. ));
+                        pattern_token_stream.extend(quote!( #field_name: #field_name_var, .. ));
 
                         arms_token_stream.extend(
                             quote!( Self::#variant_ident { #pattern_token_stream } => #body_token_stream, ),
